@@ -29,7 +29,7 @@
      missing / extra entries and shared blobs); the executable form of the statement is evaluated
      by the check on every generated case, on the model and on the real code. *)
 From Verif.Base Require Import Tactics.
-From Verif.C14 Require Import Model Extracted Witness Proofs Proofs2 Proofs3 Exact1 Exact2 Exact3 Exact4 Exact5 Exact6 Exact7 Exact8 Order Merge Merge2 Merge3 Contents2 Plan2.
+From Verif.C14 Require Import Model Extracted Witness Proofs Proofs2 Proofs3 Exact1 Exact2 Exact3 Exact4 Exact5 Exact6 Exact7 Exact8 Order Merge Merge2 Merge3 Contents2 Plan2 Coalesce.
 Local Open Scope N_scope.
 
 (* No path outside the destination — nor the destination root itself — is created, modified or
@@ -358,3 +358,49 @@ Proof.
   split; [reflexivity|]. split; [|exact GPlanInv0].
   constructor; [constructor|intros f []|intros f f' b b' []].
 Qed.
+
+(* ================================================================ PackInfo::coalesce (round 5) *)
+Local Open Scope N_scope.
+
+(* The guard of PackInfo::coalesce is regenerated from the source (code_coalesce_guard; CgSelf =
+   `self.from_file.is_none()`).  With it, whatever BlobLocations::can_coalesce allows: a coalesced
+   PackInfo that reads from an existing destination file is one of the original (pack, location)
+   entries, unmerged — it carries exactly its own blob, so `read_data.clone()` is written only to
+   the locations of the blob that was read. *)
+Theorem coalesce_from_file_unmerged : forall cc r p,
+  In p (coalesce_all code_coalesce_guard cc (map of_entry r)) -> pi_from p <> None ->
+  exists e, In e r /\ p = of_entry e /\ length (pi_blobs p) = 1%nat.
+Proof. exact coalesce_from_file_unmerged_code. Qed.
+Print Assumptions coalesce_from_file_unmerged.
+Example coalesce_from_file_unmerged_hyps : exists p,
+  In p (coalesce_all code_coalesce_guard code_cc (map of_entry
+      [((100, 0), ([1; 2], [mkFl 0 0 true])); ((100, 2), ([3; 4], [mkFl 0 2 false]))])) /\ pi_from p <> None.
+Proof. eexists. split; [vm_compute; left; reflexivity|discriminate]. Qed.
+
+(* coalescing (any guard, any can_coalesce) neither drops, duplicates nor reorders blobs: the blobs
+   with their bytes and non-matching locations are those of the plan, in the plan's order *)
+Theorem coalesce_preserves_blobs : forall g cc l, flat_map pi_blobs (coalesce_all g cc l) = flat_map pi_blobs l.
+Proof. exact coalesce_preserves_blobs_lemma. Qed.
+Print Assumptions coalesce_preserves_blobs.
+
+(* the other guard (`other.from_file.is_none()`): an intact first blob read from the existing file is
+   merged with the modified following blob, which is then written with the first blob's bytes
+   ([1;2;1;2] instead of [1;2;3;4]); with the code's guard the coalesced execution gives the
+   snapshot's bytes, like the entry-by-entry execution the other theorems are about. *)
+Theorem coalesce_other_guard_refuted :
+  fs_get (r_fs (restore_c cfg_fixed CgOther cc0 o_plain droot0 snapC worldC)) [1; 2; 5] = Some (EFile [1; 2; 1; 2] 1000 420) /\
+  fs_get (r_fs (restore_c cfg_fixed CgSelf cc0 o_plain droot0 snapC worldC)) [1; 2; 5] = Some (EFile [1; 2; 3; 4] 1000 420) /\
+  fs_get (r_fs (restore cfg_fixed o_plain droot0 snapC worldC)) [1; 2; 5] = Some (EFile [1; 2; 3; 4] 1000 420) /\
+  (exists p, In p (coalesce_all CgOther cc0 (map of_entry
+      [((100, 0), ([1; 2], [mkFl 0 0 true])); ((100, 2), ([3; 4], [mkFl 0 2 false]))])) /\
+     pi_from p <> None /\ length (pi_blobs p) = 2%nat).
+Proof. exact w_coalesce. Qed.
+Print Assumptions coalesce_other_guard_refuted.
+
+(* the executable model used by the correspondence is the coalesced one (restore_c with the
+   extracted guard and constants); on the witness it equals the entry-by-entry restore for every option *)
+Theorem coalesced_equals_entrywise_on_witness : forall verify sparse del,
+  r_fs (restore_c code_cfg code_coalesce_guard code_cc (mkO del verify sparse) droot0 snapC worldC) =
+  r_fs (restore code_cfg (mkO del verify sparse) droot0 snapC worldC).
+Proof. exact w_coalesce_same. Qed.
+Print Assumptions coalesced_equals_entrywise_on_witness.
